@@ -391,6 +391,10 @@ def run_unit(unit, tier='quick', seed=0, keep=None, solver=None, rlimit=30):
         res.labels = asm.labels
         res.template_lines = asm.template_lines
         res.assumption_scan = assumption_scan(asm.text())
+        # the generated case-split files cut the arms that are not under examination; where the cut is an
+        # `assume(false)` stub (inner_copy) it is counted here, so the scan does not hide it
+        res.assumption_scan['assume(false) in generated case-split stubs (every arm is real in exactly one part)'] = sum(
+            pasm.text().count('assume(false)') for (_, _, pasm, _) in part_files)
         res.verus_version = (run['json'].get('verus') or {}).get('version')
         res.verified_count = (run['json'].get('verification-results') or {}).get('verified')
         res.error_count = (run['json'].get('verification-results') or {}).get('errors')
